@@ -15,7 +15,7 @@ static coap_context_t *ctx;
 static coap_session_t *S[MAXS];
 static int nS;
 
-typedef struct { int kind; /* 0 drop 1 ack 2 rst */ int nd; unsigned long d[4]; } fate_t;
+typedef struct { int kind; /* 0 drop 1 ack 2 rst 3 the socket write fails */ int nd; unsigned long d[4]; } fate_t;
 static fate_t fates[256];
 static int nfates, fate_pos;
 
@@ -29,16 +29,33 @@ static unsigned last_wait;
 static struct { int s, mid, type; uint32_t h; } firsts[1024];
 static int nfirsts;
 
-static void log_tx(const sim_dgram_t *d) {
-  char same = '=';
+/* '=' if these are the bytes first handed to the socket for (session, mid, type), '!' otherwise */
+static char same_bytes(const sim_dgram_t *d) {
   int i;
-  if (!d->decoded) { sim_logf("tx@%llu:%d:raw", (unsigned long long)d->t, d->sess); return; }
   for (i = 0; i < nfirsts; i++)
     if (firsts[i].s == d->sess && firsts[i].mid == d->mid && firsts[i].type == d->type) break;
   if (i == nfirsts) {
     if (nfirsts < 1024) { firsts[nfirsts].s = d->sess; firsts[nfirsts].mid = d->mid; firsts[nfirsts].type = d->type; firsts[nfirsts].h = d->raw_hash; nfirsts++; }
-  } else if (firsts[i].h != d->raw_hash) same = '!';
-  sim_logf("tx@%llu:%d:%c:%d:%c", (unsigned long long)d->t, d->sess, sim_kind[d->type], d->mid, same);
+  } else if (firsts[i].h != d->raw_hash) return '!';
+  return '=';
+}
+static void log_tx(const sim_dgram_t *d) {
+  if (!d->decoded) { sim_logf("tx@%llu:%d:raw", (unsigned long long)d->t, d->sess); return; }
+  sim_logf("tx@%llu:%d:%c:%d:%c", (unsigned long long)d->t, d->sess, sim_kind[d->type], d->mid, same_bytes(d));
+}
+
+/* fate `x`: the socket write of this datagram fails (coap_socket_send() returns -1, as with ECONNREFUSED / ENOBUFS):
+ * nothing leaves, the attempt is logged as txf@T:S:K:MID:= (same fields as tx@) */
+static int on_tx_fail(coap_session_t *session, const uint8_t *data, size_t datalen) {
+  sim_dgram_t d;
+  if (fate_pos >= nfates || fates[fate_pos].kind != 3) return 0;
+  fate_pos++;
+  memset(&d, 0, sizeof(d));
+  d.sess = sim_sess_id(session); d.data = (uint8_t *)data; d.len = datalen; d.t = sim_now;
+  sim_decode(&d);
+  if (!d.decoded) sim_logf("txf@%llu:%d:raw", (unsigned long long)d.t, d.sess);
+  else sim_logf("txf@%llu:%d:%c:%d:%c", (unsigned long long)d.t, d.sess, sim_kind[d.type], d.mid, same_bytes(&d));
+  return 1;
 }
 
 static void add_arrival(coap_tick_t t, int s, int is_rst, int mid) {
@@ -158,6 +175,7 @@ static int parse_fate(const char *w, fate_t *f) {
   char *e;
   f->nd = 0;
   if (!strcmp(w, "d")) { f->kind = 0; return 1; }
+  if (!strcmp(w, "x")) { f->kind = 3; return 1; }
   if (w[0] == 'a' || w[0] == 'A') f->kind = 1; else if (w[0] == 'r' || w[0] == 'R') f->kind = 2; else return 0;
   w++;
   for (;;) {
@@ -251,7 +269,7 @@ static void do_msg(char **w, int n) {
   if (n < 2) { printf("bad-op"); return; }
   sim_reset();
   sim_log_events = 0;
-  sim_tx_hook = on_tx; sim_tx_logger = log_tx;
+  sim_tx_hook = on_tx; sim_tx_logger = log_tx; sim_tx_fail_hook = on_tx_fail;
   npend = 0; arr_seq = 0; last_wait = 0; nfirsts = 0; fate_pos = 0; nfates = 0; nS = 0;
   ns = split(w[0], ',', sp, MAXS);
   if (strcmp(w[1], "-")) {
@@ -260,6 +278,13 @@ static void do_msg(char **w, int n) {
     for (int i = 0; i < nf; i++) if (!parse_fate(fp[i], &fates[nfates++])) { printf("bad-op"); return; }
   }
   if (ns < 1) { printf("bad-op"); return; }
+  /* write failures are modelled for the base alphabet only (Model/MsgLayerW.lean), not together with S: / i: / k: */
+  {
+    int hasx = 0;
+    for (int i = 0; i < nfates; i++) if (fates[i].kind == 3) hasx = 1;
+    for (int j = 2; hasx && j < n; j++)
+      if ((w[j][0] == 'S' || w[j][0] == 'i' || w[j][0] == 'k') && w[j][1] == ':') { printf("bad-op"); return; }
+  }
   ctx = sim_new_context();
   coap_register_response_handler(ctx, on_response);
   coap_register_nack_handler(ctx, on_nack);
